@@ -4,13 +4,14 @@ answer in user units (within the coarsest replica's rounding) and on every accep
 from __future__ import annotations
 
 import copy
+import os
 from fractions import Fraction as F
 
 import numpy
 
 from . import env, model as M
 from .bench import Bench
-from .common import derive_rng, Violation
+from .common import derive_rng, Violation, HarnessError
 from .gen_a import GenA, gen_substances
 from .gen_b import GenB
 from .recipe_exec import RecipeRun
@@ -355,6 +356,11 @@ def profile_c(rng, tier, cfgs):
          'q_w': [12, 1.0, 0, 1.0, 1.2, 0.3, 0.3, 0], 'near_rel': F(1, 10 ** 3), 'fill_w': [10, 1.2, 0, 0, 0, 0, 0, 1, 0.2, 0.2],
          'cap_w': [3, 6, 0, 0, 0.6, 0.2], 'dil_w': [8, 3, 1.5, 0, 0], 'stale_p': 0.1, 'min_conc_base': F(1, 10 ** 4),
          'n_events': rng.randint(8, 18 if tier == 'quick' else 28)}
+    if rng.random() < 0.3:
+        # swarm: a script about making solutions, mostly in solvent containers that already hold other things (enzymes too)
+        p['op_w'].update(solution=4, solution_from=2, transfer=4)
+        p['p_container_solvent'] = 0.7
+        p['kind_w'] = [4, 3, 4]
     return p
 
 
@@ -386,6 +392,10 @@ def run_generated(prop, seed, run_idx, tier, known=None):
     bprof = engine_b.make_profile('C08', rng, tier)
     bprof.update({'min_conc_base': profile['min_conc_base'], 'magnitude': profile['magnitude'], 'q_w': profile['q_w'], 'fill_w': profile['fill_w'], 'cap_w': profile['cap_w'],
                   'dil_w': profile['dil_w'], 'p_illegal': 0.0, 'p_infeasible': 0.0, 'cache_policy': 'never', 'post': (0, 0)})
+    if 'p_container_solvent' in profile:
+        bprof['p_container_solvent'] = profile['p_container_solvent']
+        bprof['step_w'] = dict(bprof['step_w'], solution=6, solution_from=3)
+        bprof['op_w'] = bprof['step_w']
     run0 = AnswerRecipeRun(rep0, subs, known, bprof)
     g = GenB(rng, run0, bprof)
     g.use_bench(True)
@@ -426,6 +436,37 @@ def run_generated(prop, seed, run_idx, tier, known=None):
     return record, finish_recipe(record, run0, known)
 
 
+def own_interpreter_check(record, runs):
+    """Fidelity of the seam: a replica loaded inside this process (sys.modules purge + PYPLATE_CONFIG) must answer exactly as
+    the library does when it is imported the ordinary way in an interpreter of its own, configured through the environment
+    only (sim/c18_child.py).  A difference is a fault of the harness, not of the library: HarnessError."""
+    import json
+    import subprocess
+    import sys
+    from .c18_child import answers_digest
+    path = os.path.join(env.scratch_dir(), f"c18-child-{os.getpid()}.json")
+    with open(path, 'w') as fh:
+        json.dump({'cfgs': record['cfgs'], 'subs': record['subs'], 'events': record['events']}, fh)
+    try:
+        for cfg, b in runs:
+            idx = record['cfgs'].index(cfg)
+            cp = subprocess.run([sys.executable, '-m', 'sim.c18_child', path, str(idx)], capture_output=True, text=True, timeout=300,
+                                cwd=os.path.dirname(os.path.dirname(os.path.abspath(__file__))),
+                                env={k: v for k, v in os.environ.items() if k not in ('PYPLATE_CONFIG', 'VERIF_C18_CHILD')})
+            if cp.returncode != 0:
+                raise HarnessError(f"own-interpreter replica {cfg_tag(cfg)} failed: {cp.stderr[-400:]}")
+            got = json.loads(cp.stdout.strip().splitlines()[-1])
+            mine = answers_digest(b.answers)
+            if got['digest'] != mine or got['n'] != len(b.answers):
+                raise HarnessError(f"in-process replica {cfg_tag(cfg)} answers {mine} ({len(b.answers)} events), the same script in an "
+                                   f"interpreter of its own answers {got['digest']} ({got['n']} events)")
+    finally:
+        try:
+            os.remove(path)
+        except OSError:
+            pass
+
+
 def finish_bench(record, b0, known):
     cfgs = record['cfgs']
     runs = []
@@ -459,6 +500,9 @@ def finish_bench(record, b0, known):
         ev = record['events'][k]
         b0.V('C18', 'replicas_disagree_' + clause, (ev.get('op', ev.get('c')), clause), detail)
     b0.stats['probe:replicas_compared'] += len(runs)
+    if (record.get('tier') == 'thorough' and isinstance(record.get('run'), int) and record['run'] < 2) or os.environ.get('VERIF_C18_CHILD'):
+        own_interpreter_check(record, [(cfgs[0], b0)] + runs)
+        b0.stats['probe:own_interpreter_replica_checked'] += 1
     for c in cfgs[1:]:
         b0.sig.add(('cfg', c['moles_storage_unit'], c['volume_storage_unit'], c['internal_precision']))
     b0.violations[:] = [v for v in b0.violations if v.prop == 'C18']
@@ -543,6 +587,19 @@ def finish_recipe(record, run0, known):
             run0.idx = len(run.answers)
             run0.V('C18', 'replica_crashed', ('recipe', c['moles_storage_unit'], c['volume_storage_unit']),
                    f"under {tag} call {len(run.answers)} made the harness fail: {type(e).__name__}: {e}")
+            continue
+        # the objects were made with the direct API before the recipe existed: a prelude request inside the rounding band of a
+        # feasibility boundary (a round-number dose that fills a round-number well exactly) may legitimately be decided
+        # differently by a coarser replica, and everything after it then differs - same rule as for bench scripts
+        npre = len(record.get('prelude', []))
+        edge = False
+        for x, y in zip(run0.log[:npre], run.log[:npre]):
+            if x.get('out') != y.get('out') or 'dont_care' in (x.get('status'), y.get('status')) \
+                    or min(F(x.get('margin_rel', 1)), F(y.get('margin_rel', 1))) < F(5, 1000):
+                edge = True
+                break
+        if edge:
+            run0.stats['prelude_request_at_boundary_unjudged'] += 1
             continue
         # decisions
         diverged = False
